@@ -290,6 +290,24 @@ func streamFacts(s *src, f *facts) {
 		}
 	}
 	f.b("stDecodeErrBeforeClose", errBefore, s.pos(dec))
+	// every ctx.Done() arm of a hand-off select: decodeErr assigned, decodeDone closed, then return
+	abortOK := len(sends) > 0
+	for _, sn := range sends {
+		cc := enclosing[*ast.CommClause](dec, sn)
+		ok := false
+		if cc != nil {
+			sel := enclosing[*ast.SelectStmt](dec, cc)
+			for _, c2 := range selectCases(sel) {
+				if s.commRecvFrom(c2, func(x string) bool { return x == "ctx.Done()" }) {
+					as := first(all(c2, func(a *ast.AssignStmt) bool { return s.str(a.Lhs[0]) == "decodeErr" }))
+					cl := first(all(c2, func(c *ast.CallExpr) bool { return s.str(c.Fun) == "close" && s.str(c.Args[0]) == "decodeDone" }))
+					ok = as != nil && cl != nil && before(as, cl) && len(all[*ast.ReturnStmt](c2, nil)) > 0
+				}
+			}
+		}
+		abortOK = abortOK && ok
+	}
+	f.b("stAbortClosesDone", abortOK, s.pos(dec))
 	f.b("stDecoderExitsOnErr", exits, s.pos(dec))
 	// LinkMessage(ctx, writeReq, writeRes, readReq, readRes, …)
 	call := first(s.callsTo(lb, "LinkMessage"))
